@@ -83,6 +83,8 @@ type ServiceClient struct {
 
 	// what this connection asked the teamserver to register (requests, not outcomes)
 	AgentsSent    []ServiceAgentSpec
+	partial       []byte // fragmented message being reassembled
+	inPartial     bool
 	ListenersSent []string
 	ExC2Sent      map[string]string // request id -> name
 	Forwarded     []*ForwardedRequest
@@ -297,7 +299,20 @@ func (s *ServiceClient) Pump() {
 	s.WS.Pump()
 	for ; s.parsed < len(s.WS.Frames); s.parsed++ {
 		f := s.WS.Frames[s.parsed]
-		if f.Op != 1 && f.Op != 2 {
+		// a message larger than the server's write buffer arrives as a data frame without FIN
+		// followed by continuation frames
+		switch {
+		case (f.Op == 1 || f.Op == 2) && !f.Fin:
+			s.partial = append([]byte(nil), f.Payload...)
+			s.inPartial = true
+			continue
+		case f.Op == 0 && s.inPartial:
+			s.partial = append(s.partial, f.Payload...)
+			if !f.Fin {
+				continue
+			}
+			f.Payload, s.partial, s.inPartial = s.partial, nil, false
+		case f.Op != 1 && f.Op != 2:
 			continue
 		}
 		m := ServiceMsg{Raw: f.Payload, Step: f.Step}
